@@ -1,21 +1,22 @@
 ---------------------------- MODULE OxiaShardMC ----------------------------
 (* Model-checking instance of OxiaShard: concrete constants, guarded forms  *)
-(* of the invariants (known findings, DESIGN 2.5/2.7) and state constraint. *)
+(* of the invariants (known findings, DESIGN 2.5/2.7) and symmetry sets.     *)
 EXTENDS OxiaShard
 
 CONSTANTS a, b, c, d, v1, v2, v3
 
-G_AckedSurvive       == (kf = {}) => AckedSurvive
-G_AppliedIsCommitted == (kf = {}) => AppliedIsCommitted
-G_StateMachineSafety == (kf = {}) => StateMachineSafety
-G_CommittedUnique    == (kf = {}) => CommittedUnique
-G_AckSound           == (kf = {}) => AckSound
-G_HeadTruthful       == (kf = {}) => HeadTruthful
-G_DbIsLogPrefix      == (kf = {}) => DbIsLogPrefix
-G_AckedDurable       == (kf = {}) => AckedDurable
+Guard == kf = {}
+G_AckedSurvive       == Guard => AckedSurvive
+G_AppliedIsCommitted == Guard => AppliedIsCommitted
+G_StateMachineSafety == Guard => StateMachineSafety
+G_CommittedUnique    == Guard => CommittedUnique
+G_AckSound           == Guard => AckSound
+G_HeadTruthful       == Guard => HeadTruthful
+G_DbIsLogPrefix      == Guard => DbIsLogPrefix
+G_DurableNotAhead    == Guard => DurableNotAheadOfLog
+G_AckedDurable       == Guard => AckedDurable
 
-\* only the Figure-8 finding is tolerated (used once headLag / dupAck are repaired)
-F_AppliedIsCommitted == (kf \subseteq {"fig8"}) => (("fig8" \in kf) \/ AppliedIsCommitted)
+Symm == Permutations({v1, v2, v3}) \cup Permutations({a, b, c})
+SymmV == Permutations({v1, v2, v3})
 
-Symm == Permutations({v1, v2, v3})
 =============================================================================
